@@ -39,7 +39,7 @@ def main():
         if only and not any(o in name for o in only):
             continue
         d = json.load(open(m))
-        sh(["git", "-C", SR, "checkout", "--", "."])
+        (sh(["git", "-C", SR, "checkout", "--", "."]), sh(["git", "-C", SR, "clean", "-fdq", "src", "tests"]))
         rc, o = sh(["git", "-C", SR, "apply", os.path.join(os.path.dirname(m), "patch.diff")])
         if rc != 0:
             print(name, "patch does not apply", o[-200:])
@@ -47,7 +47,7 @@ def main():
         d["check"] = run_check(d["property"])
         json.dump(d, open(m, "w"), indent=1)
         print(name, d["check"]["detected"], (d["check"]["oracles"] or [""])[0][:160], flush=True)
-    sh(["git", "-C", SR, "checkout", "--", "."])
+    (sh(["git", "-C", SR, "checkout", "--", "."]), sh(["git", "-C", SR, "clean", "-fdq", "src", "tests"]))
     if only and "sens" not in only and not any(o.startswith("c") and "_" in o for o in only):
         return
     sys.path.insert(0, os.path.join(V, "tools"))
@@ -70,7 +70,7 @@ def main():
             results[mu["name"]] = {"property": mu["prop"], "what": mu["note"], "existing_tests_pass": prev.get("existing_tests_pass"), "check_exit": c["exit"], "detected": c["detected"], "first_oracle": (c["oracles"] or [""])[0][:300], "harness_errors": c["harness_errors"], "wall_s": c["wall_s"]}
             print(mu["name"], c["detected"], (c["oracles"] or [""])[0][:160], flush=True)
             json.dump(results, open(respath, "w"), indent=1, sort_keys=True)
-        sh(["git", "-C", SR, "checkout", "--", "."])
+        (sh(["git", "-C", SR, "checkout", "--", "."]), sh(["git", "-C", SR, "clean", "-fdq", "src", "tests"]))
 
 
 if __name__ == "__main__":
